@@ -179,6 +179,18 @@ func asm14PlanExec(c *Ctx, op string) {
 	c.Distinct(op)
 }
 
+func mountsUnder(root string) []string {
+	b, _ := os.ReadFile("/proc/self/mounts")
+	var ms []string
+	for _, l := range strings.Split(string(b), "\n") {
+		f := strings.Fields(l)
+		if len(f) > 1 && (f[1] == root || strings.HasPrefix(f[1], root+"/")) {
+			ms = append(ms, strings.TrimPrefix(f[1], root))
+		}
+	}
+	return ms
+}
+
 func unmountAllUnder(root string) {
 	b, _ := os.ReadFile("/proc/self/mounts")
 	var ms []string
@@ -310,6 +322,15 @@ func asm14RealExec(c *Ctx, op string) {
 		}
 		if cleanup != nil {
 			cleanup()
+		}
+		// after a refused assembly, and after the teardown of an accepted one, no mount remains under the root and
+		// it no longer shows any placed content (only what was there before, and filler directories)
+		if left := mountsUnder(root); len(left) > 0 {
+			what := "after the teardown of an assembly"
+			if rerr != nil {
+				what = "after an assembly that was refused (" + catOf(rerr) + ")"
+			}
+			c.PropFail("mount-left", fmt.Sprintf("%s, mounts remain under its root: %v", what, left), op)
 		}
 		unmountAllUnder(root)
 		return res, sn
